@@ -3,8 +3,6 @@
 The number of tiers already in the textgrid is enumerated (0..MAXK); tier names, indices, spans and all tier
 contents are symbolic.  This bound on the tier COUNT is stated in the evidence (the map laws themselves do not
 depend on more than the tiers involved)."""
-import z3
-
 from pyvc.contracts import contract
 from contracts.c_tiers import wf_interval_tier, wf_point_tier
 
@@ -13,25 +11,28 @@ MAXK = 2
 
 
 def textgrid(S, name, k, span="sym"):
-    from pyvc.builtins_model import SDict
-    d = SDict()
-    d.owner = "input"
-    names = []
+    return _textgrid(S, name, k, span)[0]
+
+
+def _textgrid(S, name, k, span="sym"):
+    pairs = []
+    env = {}
     for i in range(k):
         t = wf_interval_tier(S, "%s.t%d" % (name, i)) if i % 2 == 0 else wf_point_tier(S, "%s.t%d" % (name, i))
-        names.append(t.attrs["name"])
-        d.pairs.append((t.attrs["name"], t))
+        pairs.append((S.attr(t, "name"), t))
+        env["t%d" % i] = t
     for i in range(k):
         for j in range(i + 1, k):
-            S.ctx.assume(names[i] != names[j])
+            S.assume("t%d.name != t%d.name" % (i, j), env)
     lo = None if span is None else S.real(name + ".min")
     hi = None if span is None else S.real(name + ".max")
     if span is not None:
         # class invariant of a reachable Textgrid: its span contains every tier's span (addTier only widens)
-        for _, t in d.pairs:
-            S.ctx.assume(z3.And(lo <= t.attrs["minTimestamp"], t.attrs["maxTimestamp"] <= hi))
-        S.ctx.assume(lo <= hi)
-    return S.obj(TG, _tierDict=d, minTimestamp=lo, maxTimestamp=hi)
+        env.update(lo=lo, hi=hi)
+        for i in range(k):
+            S.assume("lo <= t%d.minTimestamp and t%d.maxTimestamp <= hi" % (i, i), env)
+        S.assume("lo <= hi", env)
+    return S.obj(TG, _tierDict=S.odict(pairs), minTimestamp=lo, maxTimestamp=hi), [t for _, t in pairs]
 
 
 KS = list(range(MAXK + 1))
@@ -72,10 +73,9 @@ contract(
 
 def valid_textgrid(S, name, k):
     """a textgrid whose tiers all share its span (validate() True), as produced by openTextgrid / crop etc."""
-    tg = textgrid(S, name, k)
-    for _, t in tg.attrs["_tierDict"].pairs:
-        S.ctx.assume(z3.And(t.attrs["minTimestamp"] == tg.attrs["minTimestamp"],
-                            t.attrs["maxTimestamp"] == tg.attrs["maxTimestamp"]))
+    tg, tiers = _textgrid(S, name, k)
+    for i, t in enumerate(tiers):
+        S.assume("t.minTimestamp == tg.minTimestamp and t.maxTimestamp == tg.maxTimestamp", {"t": t, "tg": tg})
     return tg
 
 
@@ -111,4 +111,58 @@ contract(
     requires=["-1e15 <= offset", "offset <= 1e15"],
     spec="spec.textgrids.Textgrid_editTimestamps", frame=["self"],
     ensures=[("same-names", "result.tierNames == self.tierNames")],
+)
+
+def two_textgrids(S, ka, kb):
+    a, ta = _textgrid(S, "self", ka)
+    b, tb = _textgrid(S, "tg", kb)
+    for g, ts in ((a, ta), (b, tb)):
+        for t in ts:
+            S.assume("t.minTimestamp == g.minTimestamp and t.maxTimestamp == g.maxTimestamp", {"t": t, "g": g})
+    # tiers with equal names have the same tier class (tier i is an interval tier iff i is even)
+    for i, x in enumerate(ta):
+        for j, y in enumerate(tb):
+            if i % 2 != j % 2:
+                S.assume("x.name != y.name", {"x": x, "y": y})
+    return a, b
+
+
+def inputs(S, cfg):
+    a, b = two_textgrids(S, cfg["ka"], cfg["kb"])
+    return dict(self=a, tg=b, onlyMatchingNames=cfg["onlyMatchingNames"])
+
+
+contract(
+    TG + ".appendTextgrid", serves=["C09", "C12", "C13"], spec_module="spec.textgrids",
+    configs={"ka": [0, 1, 2], "kb": [0, 1, 2], "onlyMatchingNames": [True, False]},
+    inputs=inputs,
+    # spans of textgrids built from non-negative times
+    requires=["0 <= self.minTimestamp", "0 <= tg.minTimestamp"],
+    spec="spec.textgrids.Textgrid_appendTextgrid", frame=["self", "tg"],
+    ensures=[("span", "result.minTimestamp == self.minTimestamp and "
+                      "result.maxTimestamp == self.maxTimestamp + tg.maxTimestamp")],
+)
+
+
+def distinct_textgrid(S, name, k):
+    """valid textgrid whose tiers' entries are pairwise distinguishable under == (precondition of the R-ERASE rule)"""
+    tg, tiers = _textgrid(S, name, k)
+    for t in tiers:
+        S.assume("t.minTimestamp == tg.minTimestamp and t.maxTimestamp == tg.maxTimestamp", {"t": t, "tg": tg})
+        S.mark_distinct(S.attr(t, "_entries"))
+    return tg
+
+
+contract(
+    TG + ".eraseRegion", serves=["C12", "C07", "C13"], spec_module="spec.textgrids",
+    configs={"k": [0, 1, 2], "doShrink": [False, True]},
+    # two tiers with shrinking repeat the one-tier argument per tier at 5 minutes of solver time: left out
+    skip_config=lambda c: c["k"] == 2 and c["doShrink"],
+    inputs=lambda S, cfg: dict(self=distinct_textgrid(S, "self", cfg["k"]), start=S.real("start"), end=S.real("end"),
+                               doShrink=cfg["doShrink"]),
+    requires=["0 <= start", "self.minTimestamp <= start", "end <= self.maxTimestamp"],
+    spec="spec.textgrids.Textgrid_eraseRegion", frame=["self"],
+    ensures=[("same-names", "result.tierNames == self.tierNames"),
+             ("span", "result.minTimestamp == self.minTimestamp and result.maxTimestamp == "
+                      "(start + (self.maxTimestamp - end) if doShrink else self.maxTimestamp)")],
 )
